@@ -74,6 +74,19 @@ struct Dflt<T = Banana> { t: Option<T> }
 struct ShD { w: Wrapper<Banana> }
 #[derive(TS)]
 enum En { A(Leaf), B { i: Apple }, C }
+// dependencies reachable only through a type alias of a container / generic / option
+#[derive(TS)]
+struct Wheel { r: u8 }
+#[derive(TS)]
+struct Seat { n: u8 }
+#[derive(TS)]
+#[ts(export_to = "parts/engine.ts")]
+struct Engine { hp: u16 }
+type Wheels = Vec<Wheel>;
+type Seats = [Seat; 2];
+type MaybeEngine = Option<Engine>;
+#[derive(TS)]
+struct CarAliased { wheels: Wheels, seats: Seats, engine: MaybeEngine }
 
 struct Entry {
     name: &'static str,
@@ -138,6 +151,7 @@ fn universe() -> Vec<Entry> {
         entry::<Vec<Leaf>>("Vec<Leaf>"), entry::<(Leaf, Inner)>("(Leaf, Inner)"), entry::<i32>("i32"),
         entry::<Option<Outer>>("Option<Outer>"), entry::<Wrapper<ts_rs::Dummy>>("Wrapper<Dummy>"),
         entry::<Dflt<ts_rs::Dummy>>("Dflt<Dummy>"),
+        entry::<Wheel>("Wheel"), entry::<Seat>("Seat"), entry::<Engine>("Engine"), entry::<CarAliased>("CarAliased"),
     ]
 }
 
